@@ -130,7 +130,50 @@ let cmd_adrconst t =
   let xb = show (fun ((p, v), pr) -> Printf.sprintf "ok:%s:%s:%s" (hex_of_bytes p) (i_of_byte v) (hex_of_bytes pr)) (Addr.from_bech32 bdec bcb x) in
   Printf.printf "x=%s xt=%s xb=%s y=%s yt=%s\n" (hex_of_bytes x) (ty2 x) xb (hex_of_bytes y) (ty2 y)
 
+(* ---- nested payments: FromScript / FromPublicKey / FromPayment / copy, composed from the model's
+   hash and script functions; a level is (hash, witness hash, script, witness script) ---- *)
+let some_or_empty o = match o with Some s -> s | None -> []
+let level_line net key (h, wh, sc, ws) =
+  let parts = Stdlib.List.init 10 (fun i ->
+    Printf.sprintf "a%d=%s" i (show okhex (Addr.pay_address e58 benc bcb (n_of_int i) net h wh [] key))) in
+  Printf.sprintf "h=%s wh=%s s=%s ws=%s %s" (hex_of_bytes h) (hex_of_bytes wh) (hex_of_bytes sc) (hex_of_bytes ws)
+    (Stdlib.String.concat " " parts)
+(* FromPayment: hash160 / sha256 of the witness script if there is one, else of the script *)
+let wrap (_, _, sc, ws) =
+  let sth = if ws <> [] then ws else sc in
+  let h = hash160 sth in let wh = sha256 sth in
+  (h, wh, some_or_empty (Addr.script_p2sh h), some_or_empty (Addr.script_segwit (byte_of_int 0) wh))
+
+let cmd_adrnest t =
+  let kind = next_int t in
+  let net = net_of_int (next_int t) in
+  let key = next_hex t in
+  let levels = match kind with
+    | 0 ->
+      let m = next_int t in let n = next_int t in
+      let keys = Stdlib.List.init n (fun _ -> next_hex t) in
+      let ms = [byte_of_int (0x50 + m)] @ Stdlib.List.concat_map (fun k -> byte_of_int 0x21 :: k) keys
+               @ [byte_of_int (0x50 + n); byte_of_int 0xae] in
+      let l0 = ([], [], ms, []) in
+      let inner = wrap l0 in
+      let outer = wrap inner in
+      [outer; inner; l0]
+    | 1 ->
+      let h = next_hex t in
+      if Stdlib.List.length h = 20 then begin
+        let p = (h, [], some_or_empty (Addr.script_p2sh h), []) in
+        [wrap p; p]
+      end else
+        [([], h, [], some_or_empty (Addr.script_segwit (byte_of_int 0) h))]
+    | _ ->
+      let pk = next_hex t in
+      let h = hash160 pk in
+      let p = (h, h, some_or_empty (Addr.script_p2pkh h), some_or_empty (Addr.script_segwit (byte_of_int 0) h)) in
+      let mid = wrap p in
+      [wrap mid; mid; p] in
+  print_endline (Stdlib.String.concat " ;; " (Stdlib.List.map (level_line net key) levels))
+
 let () =
-  register "adrhist" cmd_adrhist; register "adrcase" cmd_adrcase; register "adrconst" cmd_adrconst;
+  register "adrnest" cmd_adrnest; register "adrhist" cmd_adrhist; register "adrcase" cmd_adrcase; register "adrconst" cmd_adrconst;
   register "adrdec" cmd_adrdec; register "adrenc" cmd_adrenc; register "adrpay" cmd_adrpay;
   register "adrscr" cmd_adrscr; register "adrform" cmd_adrform
